@@ -286,11 +286,24 @@ def _compile_history(sc, violation, probes):
     from bardolph.parser.parse import Parser
     injection.configure()
     runtime_module.configure()
+    # reference results taken before the history starts: a fresh Parser must
+    # also be unaffected by what *other* Parser objects compiled
+    want0 = {}
+    for text in sc['texts']:
+        if text not in want0:
+            want0[text] = compile_outcome(Parser(), text)
     long_lived = Parser()
     prev = None
     for i, text in enumerate(sc['texts']):
         got = compile_outcome(long_lived, text)
         want = compile_outcome(Parser(), text)
+        if want != want0[text]:
+            violation('compile/shared-between-parsers',
+                      'text #{}: a fresh Parser gives a different result '
+                      'after other Parser objects compiled {} text(s) than '
+                      'before: {} vs {}; text: {!r}'.format(
+                          i + 1, i, want[0], want0[text][0], text[:200]))
+            return
         if prev is not None:
             if prev[0] == 'accepted':
                 probes['compile_after_success'] = 1
@@ -304,6 +317,8 @@ def _compile_history(sc, violation, probes):
                     probes['compile_after_reject_in_routine'] = 1
         if ' or ' in text and want[0] == 'accepted':
             probes['time_pattern_union'] = 1
+        if want[0] != 'accepted':
+            probes['_rejected'] = probes.get('_rejected', 0) + 1
         if got != want:
             what = '{}-vs-{}'.format(got[0], want[0])
             detail = ''
@@ -614,6 +629,7 @@ def execute(scenario, chooser):
         _compile_history(sc, violation, probes)
         res['nontrivial'] = len(sc['texts']) >= 2
         res['shape'] = 'compile:{}'.format(len(sc['texts']))
+        res['faults'] = {'rejected_compile': probes.pop('_rejected', 0)}
         res['sample'] = {'family': 'compile',
                          'texts': [t[:120] for t in sc['texts']]}
         return res
@@ -624,6 +640,12 @@ def execute(scenario, chooser):
         'switch_digest': sim.switch_digest(), 'sim_time': sim.now,
         'steps': sim.steps, 'deviations': list(sim.deviations)})
     res['shape'] = 'exec:' + ','.join(s[0] for s in sc['steps'])
+    res['faults'] = {
+        'stop_request': sum(1 for s in sc['steps'] if s[0] == 'run_stop'),
+        'rejected_load': sum(1 for s in sc['steps'] if s[0] == 'load_bad'),
+        'runtime_abort_scripts': sum(1 for t in sc['texts'] if '/ 0}' in t
+                                     or '/ zq}' in t),
+        'thread_preemption': sim.switches}
     if out.status in ('deadlock', 'budget'):
         violation('exec/hang', '{} {}'.format(
             out.detail, world.fmt_stacks(out.stacks)))
